@@ -78,6 +78,13 @@ def build(name):
                 return r, s
         o = C()
         return {'objs': {'w': o}, 'calls': {'sig': lambda: sigtools.signature(o), 'inspect': lambda: inspect.signature(o)}}
+    if name == 'as_forged_hashed':
+        # the object defines __hash__ / __eq__ in Python: the guard's set operations cross into user code (compiled under a file name of its
+        # own: frames of this harness are not fault sites)
+        g = {'specifiers': specifiers}
+        exec(compile(_HASHED_SRC, '<verif-user-class>', 'exec'), g)
+        o = g['C']()
+        return {'objs': {'w': o}, 'calls': {'sig': lambda: sigtools.signature(o), 'inspect': lambda: inspect.signature(o)}}
     if name in ('as_forged_class', 'as_forged_subclass'):
         # the subject of the retrieval is the CLASS: its __signature__ entry is the as_forged descriptor itself (own, or inherited)
         class C(object):
@@ -209,7 +216,27 @@ def build(name):
     raise ValueError(name)
 
 
-SCENARIOS = ['wraps', 'wraps_chain', 'signature_attr', 'signature_attr_upgraded', 'forger', 'forger_emulate', 'modifiers', 'as_forged', 'as_forged_class', 'as_forged_subclass', 'forger_bound_method', 'forger_emulate_special', 'sig_property', 'combination', 'decorator', 'method_kwo',
+_HASHED_SRC = """
+class C(object):
+    __signature__ = specifiers.as_forged
+
+    def __hash__(self):
+        return 7
+
+    def __eq__(self, other):
+        return self is other
+
+    @specifiers.forwards_to_method('method')
+    def __call__(self, first, *args, **kwargs):
+        return self.method(*args, **kwargs)
+
+    def method(self, r, *, s):
+        return r, s
+"""
+# scenarios whose crossings are all tried at every tier (few, and the interesting ones are rare among them)
+ALL_CROSSINGS = ('as_forged_hashed',)
+
+SCENARIOS = ['wraps', 'wraps_chain', 'signature_attr', 'signature_attr_upgraded', 'forger', 'forger_emulate', 'modifiers', 'as_forged', 'as_forged_hashed', 'as_forged_class', 'as_forged_subclass', 'forger_bound_method', 'forger_emulate_special', 'sig_property', 'combination', 'decorator', 'method_kwo',
              'forger_function', 'partial_wraps', 'super_class', 'wrapper_decorator']
 WATCHED = ('__wrapped__', '__signature__', '_sigtools__forger', '_sigtools__wrappers')
 
@@ -367,10 +394,15 @@ def crash_run(tid, scenario, call, k, excname):
         rec.mark('CallEnd', 0)
         uninstall()
     b, a, changed = snap_compare(before, sc['objs'])
+    guard_after = guard_size()
     # the retrieval after the fault must work again as if nothing had happened
     again = outcome(sc['calls'][call])
+    if guard_after:
+        # (reported by the monitor for THIS case; the following cases of this worker start from an empty guard again)
+        from sigtools import specifiers as _sp
+        _sp.as_forged.currently_computing.clear()
     return {'tid': tid, 'op': 'run', 'kind': 'crash', 'scenario': scenario, 'events': rec.events, 'before': b, 'after': a, 'changed': changed,
-            'guard_after': guard_size(), 'results': [{'t': 0, 'call': call, 'res': res, 'raised': res.startswith('raise:'), 'alone': alone, 'again': again}], 'fault': {'k': k, 'exc': excname, 'site': inj.hit or 'none'},
+            'guard_after': guard_after, 'results': [{'t': 0, 'call': call, 'res': res, 'raised': res.startswith('raise:'), 'alone': alone, 'again': again}], 'fault': {'k': k, 'exc': excname, 'site': inj.hit or 'none'},
             'case': {'kind': 'crash', 'scenario': scenario, 'call': call, 'k': k, 'exc': excname, 'site': inj.hit}}
 
 
@@ -572,7 +604,7 @@ def crash_gen(seed, frac):
                 n = count_crossings(scen, call)
                 for c in range(0, n + 1):          # 0 = no fault at all: retrieval itself must leave everything as it was
                     for exc in (EXC if c else ['ValueError']):
-                        take = c == 0 or rnd.random() < frac
+                        take = c == 0 or rnd.random() < frac or (scen in ALL_CROSSINGS and exc in ('TypeError', 'AttributeError'))
                         if take and k % nshards == shard:
                             yield crash_run('crash/%s-%s-%d-%s' % (scen, call, c, exc), scen, call, c, exc)
                         if take:
